@@ -51,6 +51,9 @@ pub struct RunResult {
     pub outcomes: Vec<String>,
     #[serde(default)]
     pub known_hits: Vec<String>,
+    /// Digest of every serialized object the run produced (determinism proof).
+    #[serde(default)]
+    pub bytes_digest: u64,
 }
 
 #[derive(Clone, Debug, Serialize, Deserialize)]
@@ -118,6 +121,8 @@ pub struct Runner {
     /// Signatures listed in known_findings.json for this property.
     pub known: BTreeSet<String>,
     pub known_hits: BTreeSet<String>,
+    /// Twin run: reload events only advance the clock.
+    pub skip_reloads: bool,
 }
 
 impl Runner {
@@ -134,6 +139,7 @@ impl Runner {
             record_to: None,
             known: crate::supervisor::load_known().known.into_iter().filter(|k| k.0 == prop).map(|k| k.1).collect(),
             known_hits: BTreeSet::new(),
+            skip_reloads: false,
         })
     }
 
@@ -177,7 +183,11 @@ impl Runner {
             Ev::Encrypt { enc, pol, kind, repeat } => w.ev_encrypt(*enc, pol, kind, *repeat),
             Ev::Read { user, slot } => w.ev_read(*user, *slot),
             Ev::RequestRefresh { user, keep, delay, dup, tamper } => w.ev_request_refresh(*user, *keep, *delay, *dup, tamper),
-            Ev::Reload { what } => w.ev_reload(what),
+            Ev::Reload { what } => {
+                if !self.skip_reloads {
+                    w.ev_reload(what)
+                }
+            }
             Ev::Backup => w.ev_backup(),
             Ev::Restore { idx } => w.ev_restore(*idx),
             Ev::Recaps { slot, stale_from } => w.ev_recaps(*slot, *stale_from),
@@ -189,6 +199,7 @@ impl Runner {
             }
             Ev::Hostile { target, mutation, parser } => ev_hostile(w, target, mutation, parser),
             Ev::Audit => w.ev_audit(),
+            Ev::Golden => crate::golden::check_golden(w),
         }
         if w.outcomes.len() == n_out {
             w.outcomes.push("-".into());
@@ -289,6 +300,21 @@ impl Runner {
             }
             trigrams.insert(h);
         }
+        let mut bd = 0xcbf29ce484222325u64;
+        for sl in &w.slots {
+            fnv(&mut bd, &sl.orig);
+        }
+        let mut keys: Vec<&Vec<u8>> = w.issued.keys().collect();
+        keys.sort();
+        for k in keys {
+            fnv(&mut bd, k);
+        }
+        if let Ok(b) = w.auth.msk.serialize() {
+            fnv(&mut bd, &b);
+        }
+        if let Ok(b) = w.auth.mpk.serialize() {
+            fnv(&mut bd, &b);
+        }
         let states: BTreeSet<u64> = w.state_hashes.iter().copied().collect();
         let conv = |m: &std::collections::BTreeMap<&'static str, u64>| m.iter().map(|(k, v)| (k.to_string(), *v)).collect::<Vec<_>>();
         let res = RunResult {
@@ -311,6 +337,7 @@ impl Runner {
             noop_mutations: w.stats.noop_mutations,
             outcomes: w.outcomes.clone(),
             known_hits: self.known_hits.iter().cloned().collect(),
+            bytes_digest: bd,
         };
         (res, self.trace)
     }
@@ -341,6 +368,9 @@ pub fn run_seed(prop: &str, seed: u64, thorough: bool, record: Option<&str>) -> 
     for ev in gen.prelude(&mut rng) {
         runner.apply(&ev);
     }
+    if prop == "C13" && rng.pct(4) {
+        runner.apply(&Ev::Golden);
+    }
     for u in 0..n_users {
         if rng.pct(85) {
             let ev = gen.try_keygen(&mut rng, &runner.world, u);
@@ -359,7 +389,10 @@ pub fn run_seed(prop: &str, seed: u64, thorough: bool, record: Option<&str>) -> 
             runner.apply(&ev);
         }
     }
-    let (res, events) = runner.finish(seed);
+    let (mut res, events) = runner.finish(seed);
+    if prop == "C13" {
+        twin_check(prop, seed, n_users, n_enc, &events, &mut res);
+    }
     let trace = Trace {
         property: prop.into(),
         features: wire::FEATURES.into(),
@@ -382,7 +415,55 @@ pub fn replay(trace: &Trace) -> RunResult {
     for ev in &trace.events {
         runner.apply(ev);
     }
-    runner.finish(trace.seed).0
+    let (mut res, events) = runner.finish(trace.seed);
+    if trace.property == "C13" {
+        twin_check(&trace.property, trace.seed, trace.n_users, trace.n_encryptors, &events, &mut res);
+    }
+    res
+}
+
+/// C13 twin run: the same explicit trace is executed again without its reload events; every
+/// other event must have the same abstract outcome (Ok/Err, Some/None, ...). A difference means
+/// that using a deserialized object instead of the original changed a later outcome.
+fn twin_check(prop: &str, seed: u64, n_users: usize, n_enc: usize, events: &[Ev], res: &mut RunResult) {
+    if res.violation.is_some() || res.diverged.is_some() {
+        return;
+    }
+    let kept: Vec<usize> = (0..events.len()).filter(|i| !matches!(events[*i], Ev::Reload { .. })).collect();
+    if kept.len() == events.len() {
+        return;
+    }
+    let Ok(mut twin) = Runner::new(prop, seed, n_users, n_enc) else { return };
+    twin.skip_reloads = true;
+    for e in events {
+        twin.apply(e);
+    }
+    let stopped = twin.violation.clone().map(|v| v.signature).or(twin.diverged.clone());
+    let (tres, _) = twin.finish(seed);
+    res.checks.push(("twin-run".to_string(), 1));
+    if let Some(s) = stopped {
+        // the run without reloads stops where the run with reloads did not
+        res.violation = Some(Violation {
+            property: prop.to_string(),
+            signature: format!("{prop}/reload/twin-run/only-the-run-without-reloads-stops"),
+            at_event: 0,
+            detail: s,
+        });
+        return;
+    }
+    for i in kept.iter() {
+        let a = res.outcomes.get(*i);
+        let b = tres.outcomes.get(*i);
+        if a != b {
+            res.violation = Some(Violation {
+                property: prop.to_string(),
+                signature: format!("{prop}/reload/twin-run/outcome-differs/{}", events[*i].kind()),
+                at_event: *i,
+                detail: format!("with reloads: {:?}, without: {:?}", a, b),
+            });
+            return;
+        }
+    }
 }
 
 // ---------------------------------------------------------------------------------------------
